@@ -21,6 +21,7 @@ THEOREMS = [
     "Typedpy.C13.counterexample_union_duplicate", "Typedpy.C13.statement_false",
     "Typedpy.C13.none_first_equiv", "Typedpy.C13.none_inner_optional", "Typedpy.C13.hasNoneOpt_position",
     "Typedpy.C13.tuple_single_equiv", "Typedpy.C13.none_default_equiv",
+    "Typedpy.C13.factory_default_equiv", "Typedpy.C13.counterexample_factory_once",
     "Typedpy.C13.equiv_example",
 ]
 RULE = ("class bodies of 1-3 fields; each field an abstract meaning tree (scalar / constrained field literal / bare or "
@@ -39,7 +40,12 @@ RULE = ("class bodies of 1-3 fields; each field an abstract meaning tree (scalar
         "where typedpy documents it, through _optional otherwise). Directed streams also enumerate every single-argument "
         "container form x argument form (tuple/list/set/frozenset/deque/dict) and the product spelling x default "
         "(none, `= None`, falsy 0 / '' / False / 0.0, truthy; as `= v` and `default=v`) for optional and non-optional "
-        "meanings; with `= None` on a None-admitting meaning the spellings without default are included as equivalents")
+        "meanings; with `= None` on a None-admitting meaning the spellings without default are included as equivalents. "
+        "Default FACTORIES (stateful counters producing int / float / str / list / tuple / set / dict) are drawn at random and "
+        "enumerated by a directed stream over every spelling (`= f` on builtin / typing / PEP-585 / PEP-604 / Field class / "
+        "Field instance annotations, `default=f`); probe: 3 instances built without the field, products relative to the first, "
+        "mutation independence. An oracle-only stream covers Structure-class-valued fields (Owner, Optional, alternatives, "
+        "lists; with factories returning Structure instances and a rename-the-first-owner probe)")
 ASSUMPTIONS = [
     "vocabulary: int/str/float/bool/Any, list/set/frozenset/deque/single-argument tuple and their typing aliases, dict/Dict/Map, Optional/Union/AnyOf/|, "
     "constrained Integer/Float/Number/String/Enum literals; multi-argument tuples, date/time and Structure-valued fields are not in the spelling grammar",
@@ -78,6 +84,8 @@ describe = S.describe
 
 
 def judge(case, impl, model):
+    if case.get("oracle_only"):
+        return None, S.struct_oracle(case, impl)
     msg = S.correspondence(case, impl, model)
     fails = S.oracle(case, impl, model)
     return msg, fails
